@@ -2038,7 +2038,14 @@ class EntityInst(Instance):
             )
 
         entity_name = self._entity._name
-        arch_name = self._entity._arch_name
+
+        if self._entity.extern():
+            arch_name = self._entity._arch_name
+        else:
+            # use the name the architecture is written with, the scope
+            # changes requested names that are reserved or already used
+            arch_name = self._entity.architecture().arch_name()
+
         arch_spec = "" if arch_name is None else f"({arch_name})"
         path = self._entity._path
 
